@@ -41,6 +41,7 @@ type Ctx struct {
 	Args     []string
 
 	mu           sync.Mutex
+	inputFile    *os.File
 	caseLog      *os.File
 	evaluations  int64
 	distinct     map[string]struct{}
@@ -88,7 +89,23 @@ func (c *Ctx) Case(format string, a ...interface{}) {
 
 // CaseBytes writes the raw input of the next call to a side file (overwritten).
 func (c *Ctx) CaseBytes(b []byte) {
-	_ = os.WriteFile(filepath.Join(c.Out, "last_input.bin"), b, 0o644)
+	// one pwrite into a persistent file: [8-byte length][bytes]; cheap enough to do before every call
+	if c.inputFile == nil {
+		c.inputFile, _ = os.OpenFile(filepath.Join(c.Out, "last_input.bin"), os.O_CREATE|os.O_RDWR|os.O_TRUNC, 0o644)
+		if c.inputFile == nil {
+			return
+		}
+	}
+	if len(b) > 1<<16 {
+		b = b[:1<<16]
+	}
+	buf := make([]byte, 8+len(b))
+	n := uint64(len(b))
+	for i := 0; i < 8; i++ {
+		buf[i] = byte(n >> (8 * uint(7-i)))
+	}
+	copy(buf[8:], b)
+	_, _ = c.inputFile.WriteAt(buf, 0)
 }
 
 func (c *Ctx) Eval(n int) {
